@@ -27,6 +27,8 @@ SETTINGS = {
     "C": dict(nonorthogonal_radial_range_power=1.0),
     "E": dict(nonorthogonal_target_all_poloidal_spacing_range=0.15),
     "F": dict(nonorthogonal_target_all_poloidal_spacing_length=0.7),
+    # settings that redistributePoints REFUSES part-way (the spacing function of the outer leg cannot be monotonic), after the inner leg and the core were regridded
+    "X": dict(nonorthogonal_xpoint_poloidal_spacing_length=0.5, nonorthogonal_target_outer_lower_poloidal_spacing_length=20.0),
 }
 METHODS = {"poc": "poloidal_orthogonal_combined"}
 OTHER = [dict(ny_sol=12), dict(psinorm_sol=1.1), dict(finecontour_Nfine=50), dict(nx_core=6)]
@@ -77,6 +79,10 @@ def histories(tier, seed):
                       dict(op="redistribute", settings=dict(SETTINGS["B"], **OTHER[1]), partial=False, key="B", other=list(OTHER[1])), dict(op="calculateRZ"), O(),
                       dict(op="redistribute", settings=dict(SETTINGS["A"], **OTHER[2]), partial=True, key="A", other=list(OTHER[2])), dict(op="calculateRZ"), O(),
                       dict(op="redistribute", settings=dict(SETTINGS["D"], **OTHER[3]), partial=True, key="D", other=list(OTHER[3])), dict(op="calculateRZ"), O()]))
+    # a call that is refused part-way, then a return to the settings that were in force: the mesh must be the mesh of those settings again
+    H.append(("lsn", [R("A", False), dict(op="calculateRZ"), O(), dict(op="redistribute", settings=SETTINGS["X"], partial=False, key="X", expect_refusal=True),
+                      R("A", False), dict(op="calculateRZ"), O(), dict(op="redistribute", settings=SETTINGS["X"], partial=False, key="X", expect_refusal=True),
+                      R("D", False), dict(op="calculateRZ"), O()]))
     # the other documented spacing methods: the separatrix skeleton built at construction must not remember the non-orthogonal settings of that time
     H.append(("lsn_poc", [R("F", False), dict(op="calculateRZ"), O(), R("D", False), dict(op="calculateRZ"), O()]))
     if tier == "thorough":
@@ -116,7 +122,7 @@ def run(chk):
     H = histories(chk.tier, chk.seed)
     fams = sorted({f for f, _ in H})
     fresh = {}
-    needed = sorted({(f, op["key"]) for f, h in H for op in h if op["op"] == "redistribute"} | {(f, "D") for f in fams})
+    needed = sorted({(f, op["key"]) for f, h in H for op in h if op["op"] == "redistribute" and not op.get("expect_refusal")} | {(f, "D") for f in fams})
     gs = corpus.get(names=[], extra_cfgs=[fresh_cfg(f, k) for f, k in needed])
     for g in gs:
         fresh[g.name] = g
@@ -133,6 +139,11 @@ def run(chk):
         cur, partial, crz, other, refused, since_geo = "D", False, True, None, False, "build"
         for op, r in zip(hist, res):
             if op["op"] == "redistribute":
+                if op.get("expect_refusal"):
+                    # whether it is refused or not, what follows is judged against fresh builds of the settings given AFTERWARDS; if it is accepted it becomes current
+                    if r["ok"]:
+                        cur, partial, crz, other = op["key"], False, False, None
+                    continue
                 if not r["ok"]:
                     if op.get("other"):
                         refused = True      # a refusal is allowed for non-nonorthogonal settings: settings in force stay as before
